@@ -33,6 +33,8 @@ type leaseSvc struct {
 	allow     int // node allowed to acquire the free lease, -1 = nobody
 	clusterID string
 	renewErr  bool     // renewals fail with a transient error
+	failNext  int      // the next n renewals fail (then succeed again)
+	ttlLong   bool     // leases granted from now on have a TTL of an hour (no periodic renewal within a case)
 	log       []string // acquire / release events (for C08 oracles)
 }
 
@@ -68,7 +70,7 @@ func (l *nodeLeaser) Acquire(ctx context.Context) (litefs.Lease, error) {
 	s.leaseID++
 	s.info = litefs.PrimaryInfo{Hostname: l.host, AdvertiseURL: l.url}
 	s.event("acquire %d", l.idx)
-	return &simLease{svc: s, idx: l.idx, id: s.leaseID, renewedAt: time.Now(), handoffCh: make(chan uint64, 1)}, nil
+	return &simLease{svc: s, idx: l.idx, id: s.leaseID, renewedAt: time.Now(), handoffCh: make(chan uint64, 1), long: s.ttlLong}, nil
 }
 
 func (l *nodeLeaser) AcquireExisting(ctx context.Context, leaseID string) (litefs.Lease, error) {
@@ -82,7 +84,7 @@ func (l *nodeLeaser) AcquireExisting(ctx context.Context, leaseID string) (litef
 	s.holder = l.idx
 	s.info = litefs.PrimaryInfo{Hostname: l.host, AdvertiseURL: l.url}
 	s.event("acquire-existing %d", l.idx)
-	return &simLease{svc: s, idx: l.idx, id: id, renewedAt: time.Now(), handoffCh: make(chan uint64, 1)}, nil
+	return &simLease{svc: s, idx: l.idx, id: id, renewedAt: time.Now(), handoffCh: make(chan uint64, 1), long: s.ttlLong}, nil
 }
 
 func (l *nodeLeaser) PrimaryInfo(ctx context.Context) (litefs.PrimaryInfo, error) {
@@ -119,6 +121,7 @@ type simLease struct {
 	mu        sync.Mutex
 	renewedAt time.Time
 	handoffCh chan uint64
+	long      bool
 }
 
 func (l *simLease) ID() string { return strconv.Itoa(l.id) }
@@ -127,7 +130,12 @@ func (l *simLease) RenewedAt() time.Time {
 	defer l.mu.Unlock()
 	return l.renewedAt
 }
-func (l *simLease) TTL() time.Duration { return 200 * time.Millisecond }
+func (l *simLease) TTL() time.Duration {
+	if l.long {
+		return time.Hour
+	}
+	return 200 * time.Millisecond
+}
 func (l *simLease) Renew(ctx context.Context) error {
 	s := l.svc
 	s.mu.Lock()
@@ -137,6 +145,10 @@ func (l *simLease) Renew(ctx context.Context) error {
 	}
 	if s.renewErr {
 		return errors.New("lease service unreachable")
+	}
+	if s.failNext > 0 {
+		s.failNext--
+		return errors.New("lease service unreachable (once)")
 	}
 	l.mu.Lock()
 	l.renewedAt = time.Now()
@@ -494,7 +506,16 @@ func (m *clusterImpl) Do(line string) string {
 				n.eng.db.Now = func() time.Time { return fixedNow }
 			}
 		}
-		return n.eng.Do(strings.Join(f[2:], " "))
+		out := n.eng.Do(strings.Join(f[2:], " "))
+		if out == "false" && (f[2] == "lock" || f[2] == "rlock") {
+			// SQLite's busy handler: a lock refused because LiteFS itself holds it for a moment
+			// (a stream frame being applied, a snapshot being read) is asked for again
+			for i := 0; i < 50 && out == "false"; i++ {
+				time.Sleep(5 * time.Millisecond)
+				out = n.eng.Do(strings.Join(f[2:], " "))
+			}
+		}
+		return out
 	case "up":
 		if len(f) != 2 {
 			return "bad-op"
@@ -777,6 +798,26 @@ func (m *clusterImpl) Do(line string) string {
 			return "-"
 		}
 		return ev
+	case "lease-ttl":
+		if len(f) != 2 {
+			return "bad-op"
+		}
+		m.svc.mu.Lock()
+		m.svc.ttlLong = f[1] == "long"
+		m.svc.mu.Unlock()
+		return "ok"
+	case "renewfail-next":
+		if len(f) != 2 {
+			return "bad-op"
+		}
+		n, err := strconv.Atoi(f[1])
+		if err != nil {
+			return "bad-op"
+		}
+		m.svc.mu.Lock()
+		m.svc.failNext = n
+		m.svc.mu.Unlock()
+		return "ok"
 	case "renewerr":
 		if len(f) != 2 {
 			return "bad-op"
@@ -831,8 +872,23 @@ func (m *clusterImpl) Do(line string) string {
 		}
 		ctx, cancel := context.WithTimeout(context.Background(), time.Second)
 		defer cancel()
+		m.svc.mu.Lock()
+		fn0 := m.svc.failNext
+		m.svc.mu.Unlock()
 		if err := p.eng.store.Handoff(ctx, k.eng.store.ID()); err != nil {
 			return "err"
+		}
+		if fn0 > 0 { // the handoff will fail at its renewal: wait until that renewal was attempted
+			for i := 0; i < 1000; i++ {
+				m.svc.mu.Lock()
+				done := m.svc.failNext < fn0
+				m.svc.mu.Unlock()
+				if done {
+					break
+				}
+				time.Sleep(time.Millisecond)
+			}
+			time.Sleep(5 * time.Millisecond)
 		}
 		return "ok"
 	case "pctx-take", "pctx": // a primary-scoped context taken while the node is primary; is it still alive?
